@@ -632,4 +632,403 @@ theorem runOps_handlers (t : Tx) (ops : List Op) (h : Op.commit ∉ ops) :
 @[simp] theorem begin_managed (k : Kind) (db : DB) : (k.begin db).managed = (k == .batch) := rfl
 @[simp] theorem begin_cursors (k : Kind) (db : DB) : (k.begin db).cursors = [] := rfl
 
+/-! ### read-only refusals -/
+
+theorem guardW_readonly (t : Tx) (p : Path) (raw : Bool) (hopen : t.closed = false) (hro : t.writable = false) :
+    (t.noteHandle p).guardW p raw =
+      some (if isBucket t.work p then .err (if raw then .rawTxNotWritable else .txNotWritable) else .noBucket) := by
+  unfold Tx.guardW
+  simp only [noteHandle_closed, noteHandle_work, noteHandle_writable, hopen, hro]
+  cases isBucket t.work p <;> simp
+
+/-- calls that try to change the database. -/
+def Op.isMutator : Op → Bool
+  | .put .. | .delete .. | .createBucket .. | .createBucketIfNotExists .. | .deleteBucket ..
+  | .setSequence .. | .nextSequence .. | .curDelete _ | .commit => true
+  | _ => false
+
+/-- the bucket a mutator is called on (`none`: through a cursor or the transaction handle). -/
+def Op.bucket? : Op → Option Path
+  | .put p .. | .delete p _ | .createBucket p _ | .createBucketIfNotExists p _ | .deleteBucket p _
+  | .setSequence p _ | .nextSequence p => some p
+  | _ => none
+
+/-- what a read-only transaction answers to a mutator whose target resolves. -/
+def Op.readOnlyAnswer : Op → Reply
+  | .setSequence .. | .nextSequence .. => .err .rawTxNotWritable
+  | _ => .err .txNotWritable
+
+theorem readonly_refuses (t : Tx) (op : Op) (hro : t.writable = false) (hopen : t.closed = false)
+    (hm : op.isMutator = true) (hmg : t.managed = false) :
+    (step t op).2 =
+      match op with
+      | .curDelete i => if (t.cursors.lookup i).isSome then .err .txNotWritable else .noCursor
+      | .commit => .err .txNotWritable
+      | _ => match op.bucket? with
+        | some p => if isBucket t.work p then op.readOnlyAnswer else .noBucket
+        | none => .ok := by
+  cases op <;> simp only [Op.isMutator] at hm <;> try (cases hm)
+  all_goals simp only [step, Op.bucket?, Op.readOnlyAnswer, guardW_readonly _ _ _ hopen hro]
+  case put p k v => cases isBucket t.work p <;> simp
+  case delete p k => cases isBucket t.work p <;> simp
+  case createBucket p k => cases isBucket t.work p <;> simp
+  case createBucketIfNotExists p k => cases isBucket t.work p <;> simp
+  case deleteBucket p k => cases isBucket t.work p <;> simp
+  case setSequence p k => cases isBucket t.work p <;> simp
+  case nextSequence p => cases isBucket t.work p <;> simp
+  case curDelete i => cases t.cursors.lookup i <;> simp [hopen, hro]
+  case commit => simp [hopen, hro, hmg]
+
+/-! ### frame: what a call leaves alone -/
+
+/-- The entries (full paths) a call may change, given the transaction it runs in (a cursor delete depends on the
+cursor's bucket). Everything else a call leaves alone — `step_frame`. -/
+def footprint (t : Tx) : Op → Path → Prop
+  | .put p k _, q => q = p ++ [k]
+  | .delete p k, q => q = p ++ [k]
+  | .createBucket p n, q => q = p ++ [n]
+  | .createBucketIfNotExists p n, q => q = p ++ [n]
+  | .deleteBucket p n, q => p ++ [n] <+: q
+  | .setSequence p _, q => q = p
+  | .nextSequence p, q => q = p
+  | .curDelete i, q => ∃ c k, t.cursors.lookup i = some c ∧ q = c.path ++ [k]
+  | _, _ => False
+
+theorem applyW_work (t : Tx) (p : Path) (r : Except Err DB) :
+    (t.applyW p r).1.work = match r with | .ok d => d | .error _ => t.work := by
+  unfold Tx.applyW; split <;> rfl
+
+theorem step_frame (t : Tx) (op : Op) (q : Path) (h : ¬ footprint t op q) :
+    (step t op).1.work[q]? = t.work[q]? := by
+  cases op with
+  | put p k v =>
+    simp only [step]
+    split
+    · simp
+    · rw [applyW_work]
+      split
+      · rename_i d hd
+        rw [(put_ok hd).1, get_insert, noteHandle_work]
+        simp only [footprint] at h
+        rw [if_neg (fun e => h e.symm)]
+      · simp
+  | delete p k =>
+    simp only [step]
+    split
+    · simp
+    · rw [applyW_work]
+      split
+      · rename_i d hd
+        rw [(delete_ok hd).1, get_erase, noteHandle_work]
+        simp only [footprint] at h
+        rw [if_neg (fun e => h e.symm)]
+      · simp
+  | createBucket p n =>
+    simp only [step]
+    split
+    · simp
+    · rw [applyW_work]
+      split
+      · rename_i d hd
+        rw [(createBucket_ok hd).1, get_insert, noteHandle_work]
+        simp only [footprint] at h
+        rw [if_neg (fun e => h e.symm)]
+      · simp
+  | createBucketIfNotExists p n =>
+    simp only [step]
+    split
+    · simp
+    · rw [applyW_work]
+      split
+      · rename_i d hd
+        rcases createBucketIfNotExists_ok hd with ⟨e, _⟩ | ⟨e, _⟩
+        · rw [e, noteHandle_work]
+        · rw [e, get_insert, noteHandle_work]
+          simp only [footprint] at h
+          rw [if_neg (fun e => h e.symm)]
+      · simp
+  | deleteBucket p n =>
+    simp only [step]
+    split
+    · simp
+    · split
+      · rename_i d hd
+        simp only [footprint] at h
+        show d[q]? = _
+        rw [(deleteBucket_ok hd).1, get_deleteBucket, if_neg h, noteHandle_work]
+      · simp
+  | setSequence p n =>
+    simp only [step]
+    split
+    · simp
+    · simp only [footprint] at h
+      show ((t.noteHandle p).work.insert p _)[q]? = _
+      rw [get_insert, if_neg (fun e => h e.symm), noteHandle_work]
+  | nextSequence p =>
+    simp only [step]
+    split
+    · simp
+    · simp only [footprint] at h
+      show ((t.noteHandle p).work.insert p _)[q]? = _
+      rw [get_insert, if_neg (fun e => h e.symm), noteHandle_work]
+  | curDelete i =>
+    simp only [step]
+    split
+    · rfl
+    · rename_i c hc
+      split
+      · rfl
+      · split
+        · rfl
+        · split
+          · rfl
+          · rfl
+          · split
+            · rfl
+            · rfl
+            · rename_i k _ _
+              show (t.work.erase (c.path ++ [k]))[q]? = _
+              rw [get_erase]
+              simp only [footprint] at h
+              rw [if_neg (fun e => h ⟨c, k, hc, e.symm⟩)]
+  | get p k => simp only [step]; split <;> simp
+  | sequence p => simp only [step]; split <;> simp
+  | lookup p n => simp only [step]; split <;> simp
+  | forEach p l => simp only [step]; (repeat' split) <;> simp
+  | curOpen i p => simp only [step]; split <;> simp
+  | curFirst i => simp only [step]; rw [(curMove_sameCore _ _ _ _).work]
+  | curLast i => simp only [step]; rw [(curMove_sameCore _ _ _ _).work]
+  | curNext i => simp only [step]; rw [(curMove_sameCore _ _ _ _).work]
+  | curPrev i => simp only [step]; rw [(curMove_sameCore _ _ _ _).work]
+  | curSeek i k => simp only [step]; rw [(curMove_sameCore _ _ _ _).work]
+  | commit => simp only [step]; (repeat' split) <;> rfl
+  | rollback => simp only [step]; (repeat' split) <;> rfl
+  | onCommit => rfl
+
+/-! ### successful writes -/
+
+theorem guardW_ne_ok (t : Tx) (p : Path) (raw : Bool) : t.guardW p raw ≠ some .ok := by
+  unfold Tx.guardW
+  repeat' split
+  all_goals simp
+
+theorem applyW_reply (t : Tx) (p : Path) (r : Except Err DB) :
+    (t.applyW p r).2 = match r with | .ok _ => .ok | .error e => .err e := by
+  unfold Tx.applyW; split <;> rfl
+
+theorem applyW_closed (t : Tx) (p : Path) (r : Except Err DB) : (t.applyW p r).1.closed = t.closed := by
+  unfold Tx.applyW; split <;> rfl
+
+/-- a `Put` that answers nil ran on an open writable transaction and wrote exactly one entry. -/
+theorem step_put_ok {t : Tx} {p : Path} {k v : Bytes} (h : (step t (.put p k v)).2 = .ok) :
+    t.closed = false ∧ t.writable = true ∧ isBucket t.work p = true ∧
+    (step t (.put p k v)).1.work = t.work.insert (p ++ [k]) (.val v) ∧
+    (step t (.put p k v)).1.closed = false := by
+  simp only [step] at h ⊢
+  split at h
+  · rename_i r hg
+    simp only at h; subst h
+    exact absurd hg (guardW_ne_ok _ _ _)
+  · rename_i hg
+    have g := guardW_none hg
+    simp only [noteHandle_closed, noteHandle_work, noteHandle_writable] at g
+    simp only [applyW_reply] at h
+    simp only [applyW_work, applyW_closed]
+    split at h
+    · rename_i d hd
+      exact ⟨g.1, g.2.2, g.2.1, by simp only [(put_ok hd).1, noteHandle_work], by simp [g.1]⟩
+    · cases h
+
+theorem step_delete_ok {t : Tx} {p : Path} {k : Bytes} (h : (step t (.delete p k)).2 = .ok) :
+    t.closed = false ∧ t.writable = true ∧ isBucket t.work p = true ∧
+    (step t (.delete p k)).1.work = t.work.erase (p ++ [k]) ∧
+    (step t (.delete p k)).1.closed = false := by
+  simp only [step] at h ⊢
+  split at h
+  · rename_i r hg
+    simp only at h; subst h
+    exact absurd hg (guardW_ne_ok _ _ _)
+  · rename_i hg
+    have g := guardW_none hg
+    simp only [noteHandle_closed, noteHandle_work, noteHandle_writable] at g
+    simp only [applyW_reply] at h
+    simp only [applyW_work, applyW_closed]
+    split at h
+    · rename_i d hd
+      exact ⟨g.1, g.2.2, g.2.1, by simp only [(delete_ok hd).1, noteHandle_work], by simp [g.1]⟩
+    · cases h
+
+theorem isBucket_insert_child (d : DB) (p : Path) (k : Bytes) (e : Entry) :
+    isBucket (d.insert (p ++ [k]) e) p = isBucket d p := by
+  cases p with
+  | nil => rfl
+  | cons a p =>
+    simp only [isBucket]
+    rw [get_insert, if_neg (append_singleton_ne_self (a :: p) k)]
+
+theorem isBucket_erase_child (d : DB) (p : Path) (k : Bytes) :
+    isBucket (d.erase (p ++ [k])) p = isBucket d p := by
+  cases p with
+  | nil => rfl
+  | cons a p =>
+    simp only [isBucket]
+    rw [get_erase, if_neg (append_singleton_ne_self (a :: p) k)]
+
+theorem step_get_open (t : Tx) (p : Path) (k : Bytes) (ho : t.closed = false) (hb : isBucket t.work p = true) :
+    (step t (.get p k)).2 = .val (getVal t.work p k) := by
+  simp [step, Tx.guardR, ho, hb]
+
+/-! ### independence of buckets -/
+
+/-- the bucket a call that may write is made on (for a cursor delete: the cursor's bucket). -/
+def callBucket (t : Tx) : Op → Option Path
+  | .put p .. | .delete p _ | .createBucket p _ | .createBucketIfNotExists p _ | .deleteBucket p _
+  | .setSequence p _ | .nextSequence p => some p
+  | .curDelete i => (t.cursors.lookup i).map (·.path)
+  | _ => none
+
+/-- everything a call may change lies at or below the bucket it is called on. -/
+theorem footprint_below {t : Tx} {op : Op} {q : Path} (h : footprint t op q) :
+    ∃ p, callBucket t op = some p ∧ p <+: q := by
+  cases op <;> simp only [footprint] at h
+  case put p k v => exact ⟨p, rfl, h ▸ List.prefix_append _ _⟩
+  case delete p k => exact ⟨p, rfl, h ▸ List.prefix_append _ _⟩
+  case createBucket p k => exact ⟨p, rfl, h ▸ List.prefix_append _ _⟩
+  case createBucketIfNotExists p k => exact ⟨p, rfl, h ▸ List.prefix_append _ _⟩
+  case deleteBucket p k => exact ⟨p, rfl, (List.prefix_append _ _).trans h⟩
+  case setSequence p k => exact ⟨p, rfl, h ▸ List.prefix_refl _⟩
+  case nextSequence p => exact ⟨p, rfl, h ▸ List.prefix_refl _⟩
+  case curDelete i =>
+    obtain ⟨c, k, hc, rfl⟩ := h
+    exact ⟨c.path, by simp [callBucket, hc], List.prefix_append _ _⟩
+
+/-- a sequence call on a real bucket changes the bucket's header only: what any key *shows* is unchanged. -/
+theorem step_seq_shown (t : Tx) (op : Op) (p : Path) (hp : p ≠ [])
+    (hop : (∃ n, op = .setSequence p n) ∨ op = .nextSequence p) (q : Path) :
+    ((step t op).1.work[q]?).map Entry.shown = (t.work[q]?).map Entry.shown := by
+  have key : ∀ (t' : Tx) (s : Nat), t'.work = t.work → isBucket t'.work p = true →
+      ((t'.work.insert p (.bucket s))[q]?).map Entry.shown = (t.work[q]?).map Entry.shown := by
+    intro t' s hw hb
+    rw [get_insert, hw]
+    split
+    · rename_i e; subst e
+      rw [hw] at hb
+      cases p with
+      | nil => exact absurd rfl hp
+      | cons a p =>
+        simp only [isBucket] at hb
+        split at hb
+        · rename_i s' hs'; rw [hs']; rfl
+        · cases hb
+    · rfl
+  rcases hop with ⟨n, rfl⟩ | rfl
+  · simp only [step]
+    split
+    · simp
+    · rename_i hg
+      exact key _ _ (noteHandle_work _ _) (guardW_none hg).2.1
+  · simp only [step]
+    split
+    · simp
+    · rename_i hg
+      exact key _ _ (noteHandle_work _ _) (guardW_none hg).2.1
+
+/-- Observations under bucket `Q` that the walletdb API offers. -/
+structure SameUnder (Q : Path) (d d' : DB) : Prop where
+  get : ∀ k, getVal d' Q k = getVal d Q k
+  view : KV.view d' Q = KV.view d Q
+  seq : seqOf d' Q = seqOf d Q
+  exist : isBucket d' Q = isBucket d Q
+
+theorem sameUnder_of (Q : Path) (d d' : DB) (h1 : d'[Q]? = d[Q]?)
+    (h2 : ∀ k, (d'[Q ++ [k]]?).map Entry.shown = (d[Q ++ [k]]?).map Entry.shown) : SameUnder Q d d' := by
+  refine ⟨?_, view_ext h2, ?_, ?_⟩
+  · intro k
+    have := h2 k
+    unfold getVal
+    cases h : d'[Q ++ [k]]? with
+    | none =>
+      rw [h] at this
+      cases h' : d[Q ++ [k]]? with
+      | none => rfl
+      | some e => rw [h'] at this; simp at this
+    | some e =>
+      rw [h] at this
+      cases h' : d[Q ++ [k]]? with
+      | none => rw [h'] at this; simp at this
+      | some e' =>
+        rw [h'] at this
+        simp only [Option.map_some, Option.some.injEq] at this
+        cases e <;> cases e' <;> simp_all [Entry.shown]
+  · unfold seqOf; rw [h1]
+  · cases Q with
+    | nil => rfl
+    | cons a Q => simp only [isBucket]; rw [h1]
+
+theorem SameUnder.refl (Q : Path) (d : DB) : SameUnder Q d d := ⟨fun _ => rfl, rfl, rfl, rfl⟩
+theorem SameUnder.trans {Q : Path} {a b c : DB} (h₁ : SameUnder Q a b) (h₂ : SameUnder Q b c) : SameUnder Q a c :=
+  ⟨fun k => (h₂.get k).trans (h₁.get k), h₂.view.trans h₁.view, h₂.seq.trans h₁.seq, h₂.exist.trans h₁.exist⟩
+
+/-- **nested buckets are independent namespaces**, one call. -/
+theorem step_independent (t : Tx) (op : Op) (Q : Path)
+    (h : ∀ p, callBucket t op = some p → ¬ p <+: Q) : SameUnder Q t.work (step t op).1.work := by
+  apply sameUnder_of
+  · apply step_frame
+    intro hf
+    obtain ⟨p, hp, hpre⟩ := footprint_below hf
+    exact h p hp hpre
+  · intro k
+    by_cases hf : footprint t op (Q ++ [k])
+    · obtain ⟨p, hp, hpre⟩ := footprint_below hf
+      have hnQ := h p hp
+      rcases prefix_append_singleton.mp hpre with h' | h'
+      · exact absurd h' hnQ
+      · -- the call is made on the child bucket `Q ++ [k]` itself: only a sequence call has it in its footprint
+        have hp0 : p ≠ [] := h' ▸ append_singleton_ne_nil Q k
+        cases op <;> simp only [footprint] at hf <;> simp only [callBucket, Option.some.injEq] at hp
+        case put p' k' v => subst hp; exact absurd (h'.trans hf).symm (append_singleton_ne_self _ _)
+        case delete p' k' => subst hp; exact absurd (h'.trans hf).symm (append_singleton_ne_self _ _)
+        case createBucket p' k' => subst hp; exact absurd (h'.trans hf).symm (append_singleton_ne_self _ _)
+        case createBucketIfNotExists p' k' => subst hp; exact absurd (h'.trans hf).symm (append_singleton_ne_self _ _)
+        case deleteBucket p' k' =>
+          subst hp
+          rw [← h'] at hf
+          have := hf.length_le
+          simp at this
+          omega
+        case setSequence p' n => subst hp; rw [← h']; exact step_seq_shown t _ _ hp0 (.inl ⟨n, rfl⟩) _
+        case nextSequence p' => subst hp; rw [← h']; exact step_seq_shown t _ _ hp0 (.inr rfl) _
+        case curDelete i =>
+          obtain ⟨c, k', hc, hq⟩ := hf
+          simp only [hc, Option.map_some, Option.some.injEq] at hp
+          rw [hp, h'] at hq
+          exact absurd hq.symm (append_singleton_ne_self _ _)
+    · rw [step_frame t op _ hf]
+
+/-- No call of the program touches entry `q` (evaluated along the run: a cursor delete depends on the cursor). -/
+def Untouched (q : Path) : Tx → List Op → Prop
+  | _, [] => True
+  | t, op :: rest => ¬ footprint t op q ∧ Untouched q (step t op).1 rest
+
+theorem runOps_untouched (q : Path) (t : Tx) (ops : List Op) (h : Untouched q t ops) :
+    (runOps t ops).1.work[q]? = t.work[q]? := by
+  induction ops generalizing t with
+  | nil => rfl
+  | cons op rest ih =>
+    rw [runOps_cons]
+    exact (ih _ h.2).trans (step_frame t op q h.1)
+
+/-- Every writing call of the program is made on a bucket that is neither `Q` nor an ancestor of `Q`. -/
+def Outside (Q : Path) : Tx → List Op → Prop
+  | _, [] => True
+  | t, op :: rest => (∀ p, callBucket t op = some p → ¬ p <+: Q) ∧ Outside Q (step t op).1 rest
+
+theorem runOps_independent (Q : Path) (t : Tx) (ops : List Op) (h : Outside Q t ops) :
+    SameUnder Q t.work (runOps t ops).1.work := by
+  induction ops generalizing t with
+  | nil => exact SameUnder.refl _ _
+  | cons op rest ih =>
+    rw [runOps_cons]
+    exact (step_independent t op Q h.1).trans (ih _ h.2)
+
 end KV
